@@ -281,6 +281,9 @@ class SymBackend(BackendBase):
     def try_public_assoc(self, verts, links):
         """native side only: reach the installed pre-state through the public API"""
 
+    def try_public_membership(self, objs, unis):
+        """native side only"""
+
     # ---- private state
     def set_field(self, obj, field, value):
         obj.fields[field] = value
